@@ -17,13 +17,14 @@ def run(ctx):
     ctx.add_obligations(vcheck.coq_props("Store", "C09"))
     ctx.cov["checker_cmd"] = ("coqc -Q coq/Store BWStore coq/Store/Props/C09.v; work/bin/h_store -mode hist -c09 | "
                               "coqc work/C09/cases_*.v (digests of query x options products per state, vm_compute)")
-    n = 60 if ctx.quick() else 2500
+    n = 60 if ctx.quick() else 1200
     hargs = ["-maxops", 30, "-usize", 24]
     if ctx.replay and sc.replay(ctx, ["-c09"], hargs, (False, False, True)):
         return
     hists = sc.hstore(["-mode", "hist", "-n", n, "-seed", ctx.seed, "-c09"] + hargs)
     bad = sc.model_mismatches(ctx, "cases_c09", hists, False, False, True, shard=100)
     sc.report(ctx, ctx.seed, hargs, hists, bad)
+    sc.oracle_check(ctx, ctx.seed, hargs, hists, *(False, False, True))
     # page concatenation, checked on the implementation by the harness itself
     pages = 0
     for h in hists:
@@ -34,7 +35,7 @@ def run(ctx):
             ctx.violation({"kind": "pages-do-not-partition-the-unpaged-result", "history": h["idx"], "detail": b,
                            "universe": h["strs"], "operations": [s["op"] for s in h["steps"]]})
     # callers sharing one LookupOptions value (the lookups must not write to it)
-    sh = sc.hstore(["-mode", "shared", "-n", 300 if ctx.quick() else 3000])[0]
+    sh = sc.hstore(["-mode", "shared", "-n", 60 if ctx.quick() else 600])[0]
     if sh["errors"] or sh["wrong"] or not sh["options_restored"]:
         ctx.violation({"kind": "lookup-writes-to-the-callers-LookupOptions", "detail": sh,
                        "explain": "goroutines sharing one LookupOptions{LatestAnchor:true} value get errors or wrong results"})
@@ -42,6 +43,7 @@ def run(ctx):
     dist = sc.distribution(hists)
     ctx.cov.update(dist)
     st = [sum(h["lookup_stats"][i] for h in hists) for i in range(4)]
+    ctx.cov["distinct_nonempty_lookups"] = sum(h["lookup_distinct_nonempty"] for h in hists)
     ctx.cov["lookup_results"] = {"empty": st[0], "non_empty": st[1], "error": st[2], "elements_returned": st[3]}
     ctx.cov["evaluations"] = sum(h["lookups"] for h in hists)
     ctx.cov["page_concatenations_checked"] = pages
@@ -55,7 +57,8 @@ def run(ctx):
                     if lo != {"max": 0, "lower": None, "upper": None, "latest": False, "filter": None, "offset": 0}:
                         for q in e["qs"]:
                             seen.add(vcheck.case_hash([h["strs"], [x["op"] for x in h["steps"]], q, lo]))
-    ctx.cov["distinct_nontrivial"] = len(seen)
+    ctx.cov["distinct_query_option_pairs"] = len(seen)
+    ctx.cov["distinct_nontrivial"] = sum(h["lookup_distinct_nonempty"] for h in hists)
     ctx.cov["option_classes"] = len(classes)
     ctx.cov["options_with_window"] = sum(v for k, v in classes.items() if k[0] or k[1])
     ctx.cov["options_with_filter"] = sum(v for k, v in classes.items() if k[3])
@@ -66,12 +69,15 @@ def run(ctx):
                        "(all eleven methods, stored and non-stored arguments) x 4-8 option values: window bounds drawn from "
                        "stored anchors +-1 ns or absent (so anchor = bound and lower > upper occur), filter operation "
                        "latest/isImmutable/isTemporal/unsupported x field subject/predicate/object/undefined, LatestAnchor, "
-                       "(MaxElements, Offset) in {-1,0,1,2,3}^2; digests compared per state. distinct_nontrivial = distinct "
-                       "(history, query, non-default options) triples. Page concatenation (n = 1..3, all pages, page past the "
+                       "(MaxElements, Offset) in {-1,0,1,2,3}^2; digests compared per state. distinct_nontrivial = lookups "
+                       "with a NON-EMPTY result, distinct by (universe, content of the graph object, method, arguments, options), "
+                       "measured by the harness. Page concatenation (n = 1..3, all pages, page past the "
                        "end) is checked on the implementation for two lookups per state")
     ctx.cov["samples"] = [{"universe": h["strs"][:3], "operations": [s["op"] for s in h["steps"][:3]],
                            "c09_first": (h["steps"][0]["obs"]["c09"] or [None])[0]} for h in hists[:2]]
 
 
 def search(ctx, broken):
-    return None
+    """failing-input search when an obligation or the build breaks: the implementation against the Python reading of
+    the SPEC (checks/store_oracle.py) on fresh histories"""
+    return sc.oracle_search(ctx, ["-c09"], ["-maxops", 30, "-usize", 24], (False, False, True))
